@@ -14,7 +14,7 @@ MANIFEST = dict(
          "for .lzma with end marker and with declared size, raw LZMA2 and single-stream XZ, for streams written by the crate and by "
          "liblzma (and forged block headers), followed by nothing, zero bytes, random bytes or another stream, with read sizes 1, 2, 7, "
          "1000, 4096, 65536. The stream length is established independently (strict parser / liblzma total_in). TLC checks "
-         "ConsumesExactly on the XZ reader model for all exported concatenation behaviours, which are replayed into the real reader.",
+         "ConsumesExactly on the XZ reader model for all exported concatenation behaviours, which are replayed into the real reader. Directed shapes: raw LZMA2 written and read with a preset dictionary shorter than / as long as / longer than the dictionary, and declared-size .lzma streams several times the dictionary read with sizes that straddle the wrap point of the dictionary buffer.",
     ref="4.2, 4.8, 6/C16",
     note="Held on the explored streams only (inputs <= 70 KiB in quick, <= 1 MiB in thorough); the range-coder byte accounting itself "
          "(RangeCoder spec) belongs to group C2; .lzma streams carrying both a declared size and an end marker are outside the statement.",
